@@ -82,6 +82,11 @@ ABORTED = [
     ['options', '\\olegacy*[a'], ['options', '\\begin{oenv}(a'],
     ['default', '\\begin{lstlisting}[a]b{\\end{lstlisting}\\verb|x|'], ['default', '\\begin{lstlisting}[a'],
     ['default', '\\verb|x'],
+    # mandatory arguments written with another group delimiter, under a parsing state that has
+    # ( ) as group delimiters as well, next to the same calls written with braces
+    ['every@parens', '\\mmand(a) \\mm(b)c'], ['every@parens', '\\mmand{a} (b) \\mm{c}'],
+    ['every', '\\mmand{a} \\mm{b}(c)'], ['default@parens', '\\textbf(a) \\frac(b){c}'],
+    ['default@parens', '\\textbf{a} \\sqrt[3](b)'],
     # end of input inside a delimited verbatim argument at nesting depth two or three, and documents
     # where a depth counter left over from such a parse would change where the argument ends
     ['every', '\\mv{a{b'], ['every', '\\mv{one} two}'], ['every', '\\mv(a(b(c'], ['every', '\\mv(x) y) z)'],
@@ -227,7 +232,12 @@ def run_history_here(history, table):
             if recipe.endswith('-fresh'):
                 dbs.pop(recipe, None)       # a database of its own for every parse
             if recipe not in dbs:
-                dbs[recipe] = contexts.build(recipe)
+                # ('every@parens' shares the database object of 'every')
+                base = recipe.split('@')[0]
+                if base != recipe and base in dbs:
+                    dbs[recipe] = dbs[base]
+                else:
+                    dbs[recipe] = contexts.build(base)
                 snaps[recipe] = db_snapshot(dbs[recipe])     # before anything is parsed
             got = fresh.outcome(recipe, source, tolerant, ctx=dbs[recipe])
             got = json.loads(json.dumps(got, sort_keys=True))
